@@ -560,11 +560,11 @@ def run_c25(tier):
         cid = "g%d" % n
         cases.append({"id": cid, "ops": ops})
         meta[json.dumps(cid)] = (c, beh, ops)
-    vlib.log("[C25] %d histories concretised, replaying" % len(meta))
+    vlib.log("[C25] %d histories concretised after %.0fs, replaying" % (len(meta), __import__("time").time() - res.t0))
     obs = vlib.run_cases(binary, cases, timeout=1500 if quick else 7000)
     shutil.rmtree(mroot, ignore_errors=True)
     shutil.rmtree(rroot, ignore_errors=True)
-    vlib.log("[C25] replay done, comparing")
+    vlib.log("[C25] replay done after %.0fs, comparing" % (__import__("time").time() - res.t0))
     st0 = obs.get(json.dumps("start"))
     if not isinstance(st0, list) or not st0[0].get("ok") or st0[0].get("same_catalog") or st0[0].get("same_wal"):
         raise Undecided("master / replica did not start as two separate instances: %s" % (st0,))
